@@ -1532,6 +1532,9 @@ class Key(object):
         key.private_byte = None
         key.private_hex = None
         key.secret = None
+        # The WIF cache filled by an earlier wif() call holds the private key
+        key._wif = None
+        key._wif_prefix = None
         return key
 
     def public_point(self):
@@ -2382,6 +2385,10 @@ class HDKey(Key):
         hdkey.secret = None
         hdkey.private_hex = None
         hdkey.private_byte = None
+        # The WIF cache filled by an earlier wif_key() / info() / as_dict(include_private=True) call holds the
+        # private key
+        hdkey._wif = None
+        hdkey._wif_prefix = None
         hdkey.key_hex = hdkey.public_hex
         # hdkey.key = self.key.public()
         return hdkey
